@@ -37,6 +37,24 @@ pub struct Ghost {
     pub task_clones: [usize; 2],
     pub task_drops: [usize; 2],
     pub total_child_polls: usize,
+    /// fallible future answered Err
+    pub failed: [bool; NCH],
+    /// merge sources: next sequence number, last answer, item budget
+    pub seq: [u8; NCH],
+    pub last_answer: [u8; NCH],
+    pub items_left: u8,
+    /// upstream of the adapters
+    pub up_ended: bool,
+    pub up_polls: usize,
+    pub up_last: u8,
+    pub up_allow_err: bool,
+    pub up_remaining: usize,
+    pub up_pulled: usize,
+    pub up_next_id: u8,
+    pub up_hint_lo: usize,
+    pub up_hint_hi: usize,
+    pub up_errs: usize,
+    pub up_waker_task: u8,
     /// output tokens dropped / created (C06)
     pub tok_drops: [u8; NCH],
     pub tok_made: [u8; NCH],
@@ -69,6 +87,21 @@ impl Ghost {
             task_clones: [0; 2],
             task_drops: [0; 2],
             total_child_polls: 0,
+            failed: [false; NCH],
+            seq: [0; NCH],
+            last_answer: [9; NCH],
+            items_left: 0,
+            up_ended: false,
+            up_polls: 0,
+            up_last: 9,
+            up_allow_err: false,
+            up_remaining: 0,
+            up_pulled: 0,
+            up_next_id: 0,
+            up_hint_lo: 0,
+            up_hint_hi: 0,
+            up_errs: 0,
+            up_waker_task: 0,
             tok_drops: [0; NCH],
             tok_made: [0; NCH],
             selfwake_left: 0,
